@@ -10,8 +10,48 @@
      wf_lines / in_alphabet  every character is one of A C G T N *)
 From Coq Require Import ZArith List Bool Arith.
 Import ListNotations.
-From SCMO Require Import Lib.Val Model.C03 Proofs.C03 Proofs.C03_b Proofs.C03_c.
+From SCMO Require Import Lib.Val Lib.PyInt Gen.GenBarcode Model.C03 Proofs.C03 Proofs.C03_b Proofs.C03_c.
 Open Scope Z_scope.
+
+(* ---- T: the kernel REGENERATED from the source (Gen/GenBarcode.v) has the shape every theorem below is
+   proved for.  The model is defined with these gen_* definitions, so all theorems are about what the source
+   says now; a change of the tie operator, of a range bound, of the compared elements, of the alphabet or of
+   the lookup order stops one of these (then the whole development). *)
+Theorem C03_T_distance_range : forall k : nat, map Z.to_nat (gen_dist_range (Z.of_nat k)) = seq 0 (S k).
+Proof. exact gen_dist_range_shape. Qed.
+Print Assumptions C03_T_distance_range.
+
+Theorem C03_T_tie_test : forall len dist,
+  gen_tie len dist = ((1 <? len) && (dist 0 =? dist 1)) /\ gen_pick_index len = 0.
+Proof. intros len dist. exact (conj (gen_tie_shape len dist) (gen_pick_index_shape len)). Qed.
+Print Assumptions C03_T_tie_test.
+
+Theorem C03_T_circle_kernel : forall alen aat cur ar,
+  gen_alphabet = [65; 67; 84; 71; 78] /\ gen_repl_range alen = zrange 0 (alen - 1) /\
+  gen_replace alen aat cur ar = (if cur =? ar then aat (alen - 1) else ar).
+Proof.
+  intros alen aat cur ar.
+  exact (conj gen_alphabet_shape (conj (gen_repl_range_shape alen) (gen_replace_shape alen aat cur ar))).
+Qed.
+Print Assumptions C03_T_circle_kernel.
+
+Theorem C03_T_lookup_order : gen_lookup_order = [0; 1; 2].
+Proof. exact gen_lookup_order_shape. Qed.
+Print Assumptions C03_T_lookup_order.
+
+(* column-order detection with the regenerated character class: a file whose first column holds a whitelist
+   barcode over ACGTN is read barcode-first; a file whose first-column tokens all contain a digit is read
+   index-first *)
+Theorem C03_parse_barcode_first : forall rows,
+  (exists r, In r rows /\ in_alphabet (fst r) = true) -> parse_rows rows = rows.
+Proof. exact parse_barcode_first. Qed.
+Print Assumptions C03_parse_barcode_first.
+
+Theorem C03_parse_index_first : forall rows,
+  (forall r, In r rows -> exists c, In c (fst r) /\ 48 <= c <= 57) ->
+  parse_rows rows = map (fun r => (snd r, fst r)) rows.
+Proof. exact parse_index_first. Qed.
+Print Assumptions C03_parse_index_first.
 
 (* hamming_circle(s, n, 'ACTGN') is exactly the Hamming sphere of radius n around s, each string once *)
 Theorem C03_circle_spec : forall s n x, Forall alpha s -> Forall alpha x ->
@@ -149,3 +189,9 @@ Example C03_ex_getitem_then_lookup :
    Counts 5 34].
 Proof. vm_compute. reflexivity. Qed.
 Print Assumptions C03_ex_getitem_then_lookup.
+
+Example C03_ex_parse :
+  parse_rows [([49;50], [65;78;84]); ([55], [71;71;71])] = [([65;78;84], [49;50]); ([71;71;71], [55])]
+  /\ parse_rows [([65;78;84], [49;50])] = [([65;78;84], [49;50])].
+Proof. vm_compute. split; reflexivity. Qed.
+Print Assumptions C03_ex_parse.
